@@ -2026,3 +2026,401 @@ Proof.
   - unfold attrs, table. rewrite Hroot. fold (oattrs (tmap g (t_root A))). rewrite oattrs_tmap_any, map_map.
     apply map_ext. exact Fg.
 Qed.
+
+(* ------------------------------------------------------------------ *)
+(* total_memory stays the sum of the local memories below               *)
+
+Definition Htmem (T : topo) : Prop :=
+  forall p, In p (table T) -> a_tmem (fst p) = derived_tmem (akey (fst p)) (table T).
+Lemma tmem_consistent_Htmem T : tmem_consistent T = true <-> Htmem T.
+Proof.
+  unfold tmem_consistent, Htmem. rewrite forallb_forall. split; intros H p Hp; specialize (H p Hp).
+  - apply N.eqb_eq in H. exact H.
+  - apply N.eqb_eq. exact H.
+Qed.
+
+Definition contributes (k : key) (p : oattr * list key) : bool :=
+  is_numa (a_type (fst p)) && mem_key k (akey (fst p) :: snd p).
+Lemma derived_cons k p r :
+  derived_tmem k (p :: r) = if contributes k p then u64add (a_lmem (fst p)) (derived_tmem k r) else derived_tmem k r.
+Proof. reflexivity. Qed.
+
+Lemma u64add_assoc_swap l d v : u64add l (u64add d v) = u64add (u64add l d) v.
+Proof.
+  unfold u64add. assert (HU : U64 <> 0%N) by (unfold U64; discriminate).
+  rewrite N.add_mod_idemp_r, N.add_mod_idemp_l by exact HU. f_equal. lia.
+Qed.
+Lemma u64_replace o n d : o < U64 -> u64add n d = u64add (u64add o d) (u64sub n o).
+Proof.
+  intros Ho. unfold u64add, u64sub. assert (HU : U64 <> 0%N) by (unfold U64; discriminate).
+  rewrite (N.mod_small o) by exact Ho.
+  rewrite N.add_mod_idemp_l, N.add_mod_idemp_r by exact HU.
+  replace (o + d + (n + (U64 - o))) with (n + d + 1 * U64) by lia.
+  rewrite N.mod_add by exact HU. reflexivity.
+Qed.
+
+(* an update that leaves key, type and local memory alone does not change the derived sums *)
+Lemma derived_map_same f k tbl :
+  (forall a, akey (f a) = akey a /\ a_type (f a) = a_type a /\ a_lmem (f a) = a_lmem a) ->
+  derived_tmem k (map (fun p => (f (fst p), snd p)) tbl) = derived_tmem k tbl.
+Proof.
+  intros Hf. induction tbl as [|p r IH]; [reflexivity|]. cbn [map]. rewrite !derived_cons, IH.
+  unfold contributes. cbn [fst snd]. destruct (Hf (fst p)) as (-> & -> & ->). reflexivity.
+Qed.
+
+Lemma derived_no_key k ka n vd chain r :
+  (forall q, In q r -> akey (fst q) <> ka) ->
+  derived_tmem k (map (fun q => (size_upd ka chain n vd (fst q), snd q)) r) = derived_tmem k r.
+Proof.
+  induction r as [|q r' IH]; intros H; [reflexivity|]. cbn [map]. rewrite !derived_cons.
+  assert (Hc' : contributes k (size_upd ka chain n vd (fst q), snd q) = contributes k q).
+  { unfold contributes. cbn [fst snd]. rewrite size_upd_kp, size_upd_eq. reflexivity. }
+  rewrite Hc', size_upd_eq. cbn [fst a_lmem set_tmem set_lmem].
+  rewrite (key_neq_eqb _ _ (fun E => H q (or_introl eq_refl) (eq_sym E))).
+  rewrite IH; [reflexivity|]. intros q' Hq'. apply H. right. exact Hq'.
+Qed.
+
+Lemma derived_update k ka n vd chain tbl : NoDup (map (fun p => akey (fst p)) tbl) ->
+  forall a anc, In (a, anc) tbl -> akey a = ka -> is_numa (a_type a) = true -> a_lmem a < U64 ->
+  derived_tmem k (map (fun p => (size_upd ka chain n vd (fst p), snd p)) tbl) =
+  if mem_key k (ka :: anc) then u64add (derived_tmem k tbl) (u64sub n (a_lmem a)) else derived_tmem k tbl.
+Proof.
+  induction tbl as [|p r IH]; intros Hnd a anc Hin Hk Hnu Hl; [contradiction|].
+  cbn [map] in *. inversion Hnd as [|? ? Hp Hr]; subst. rewrite !derived_cons.
+  assert (Hc : contributes k (size_upd (akey a) chain n vd (fst p), snd p) = contributes k p).
+  { unfold contributes. cbn [fst snd]. rewrite size_upd_kp, size_upd_eq. reflexivity. }
+  rewrite Hc. rewrite size_upd_eq. cbn [fst a_lmem set_tmem set_lmem].
+  destruct Hin as [->|Hin].
+  - (* the patched node: nothing else carries its key *)
+    cbn [fst snd] in *. rewrite key_eqb_refl.
+    assert (Hrest : derived_tmem k (map (fun q => (size_upd (akey a) chain n vd (fst q), snd q)) r) = derived_tmem k r).
+    { apply derived_no_key. intros q Hq E. apply Hp. rewrite <- E. apply in_map_iff. exists q. auto. }
+    rewrite Hrest. unfold contributes. cbn [fst snd]. rewrite Hnu. cbn [andb].
+    destruct (mem_key k (akey a :: anc)); [|reflexivity]. apply u64_replace. exact Hl.
+  - assert (Hq : akey (fst p) <> akey a).
+    { intros E. apply Hp. rewrite E. apply in_map_iff. exists (a, anc). auto. }
+    rewrite (key_neq_eqb _ _ (fun E => Hq (eq_sym E))).
+    rewrite (IH Hr a anc Hin eq_refl Hnu Hl).
+    destruct (contributes k p), (mem_key k (akey a :: anc)); try reflexivity. apply u64add_assoc_swap.
+Qed.
+
+Lemma table_keys_attrs T : map (fun p => akey (fst p)) (table T) = map akey (attrs T).
+Proof. unfold attrs. rewrite map_map. reflexivity. Qed.
+
+Theorem step_preserves_tmem b e T T' :
+  Hkeys T -> Hu64 T -> Htmem T -> apply_one b e T = Ok T' -> Htmem T'.
+Proof.
+  intros HK HU HT H.
+  destruct e as [d i ad|? ?|?]; [|discriminate H|discriminate H].
+  destruct (get_obj T d i) as [[a anc]|] eqn:Eg.
+  - apply (apply_obj_iff _ _ _ _ _ _ _ _ Eg) in H. destruct H as [Hg ->].
+    unfold Htmem. rewrite run_obj_table by apply eff_fn_kp. intros p' Hp'. apply in_map_iff in Hp'.
+    destruct Hp' as [p [<- Hp]]. cbn [fst snd]. rewrite eff_fn_kp.
+    destruct ad as [idx ov nv|ov nv|nm ov nv|t].
+    + (* SIZE *)
+      cbn [guard_ok] in Hg. apply andb_true_iff in Hg. destruct Hg as [Hnu Hl]. apply N.eqb_eq in Hl.
+      cbn [eff_fn]. 
+      assert (Hin : In (a, anc) (table T)).
+      { unfold get_obj in Eg. destruct (depth_addressable _ _); [|discriminate]. apply lookup_some in Eg. tauto. }
+      assert (Ha : In a (attrs T)) by (unfold attrs; apply in_map_iff; exists (a, anc); auto).
+      rewrite (derived_update _ _ _ _ _ _ (eq_ind_r (fun l => NoDup l) HK (table_keys_attrs T)) a anc Hin eq_refl Hnu (proj1 (HU a Ha))).
+      rewrite size_upd_eq. cbn [a_tmem set_tmem set_lmem]. rewrite (HT p Hp). rewrite Hl.
+      destruct (mem_key (akey (fst p)) (akey a :: anc)); reflexivity.
+    + cbn [eff_fn]. rewrite derived_map_same.
+      * rewrite upd_name_eq. cbn [a_tmem set_name]. apply HT. exact Hp.
+      * intros x. rewrite upd_name_eq. repeat split.
+    + cbn [eff_fn]. rewrite derived_map_same.
+      * rewrite upd_infos_eq. cbn [a_tmem set_infos]. apply HT. exact Hp.
+      * intros x. rewrite upd_infos_eq. repeat split.
+    + discriminate Hg.
+  - apply (apply_tinfo_iff _ _ _ _ _ _ Eg) in H. destruct H as [_ (nm & ov & nv & _ & _ & ->)]. exact HT.
+Qed.
+
+Definition Inv (T : topo) : Prop := Hkeys T /\ Hnames T /\ Hu64 T /\ Htmem T.
+
+Lemma step_inv b e T T' : Inv T -> entry_u64 e = true -> apply_one b e T = Ok T' -> Inv T'.
+Proof.
+  intros (HK & HN & HU & HT) He H. destruct (step_preserves _ _ _ _ HK HN HU He H) as (A & B & C).
+  split; [exact A|]. split; [exact B|]. split; [exact C|]. exact (step_preserves_tmem _ _ _ _ HK HU HT H).
+Qed.
+Lemma seq_inv b p : forall T T', Inv T -> forallb entry_u64 p = true -> apply_seq b p T = Some T' -> Inv T'.
+Proof.
+  induction p as [|e r IH]; intros T T' HI Hp H; cbn [apply_seq] in H; [injection H as <-; exact HI|].
+  cbn [forallb] in Hp. apply andb_true_iff in Hp. destruct Hp as [He Hr].
+  destruct (apply_one b e T) as [T1| |] eqn:E; try discriminate. eapply IH; [|exact Hr|exact H]. eapply step_inv; eauto.
+Qed.
+Lemma cancel_inv b l : forall n T T', Inv T -> forallb entry_u64 l = true -> cancel_loop b l n T = Some T' -> Inv T'.
+Proof.
+  induction l as [|e r IH]; intros n T T' HI Hl H; destruct n; cbn [cancel_loop] in H; try (injection H as <-; exact HI).
+  cbn [forallb] in Hl. apply andb_true_iff in Hl. destruct Hl as [He Hr].
+  destruct (apply_one (negb b) e T) as [T1| |] eqn:E; try discriminate.
+  - eapply IH; [|exact Hr|exact H]. eapply step_inv; eauto.
+  - eapply IH; eauto.
+Qed.
+
+Lemma forallb_firstn {A} (f : A -> bool) n l : forallb f l = true -> forallb f (firstn n l) = true.
+Proof.
+  revert l. induction n as [|n IH]; intros [|x r] H; cbn; try reflexivity. cbn in H. apply andb_true_iff in H.
+  destruct H as [-> H]. cbn. apply IH. exact H.
+Qed.
+Lemma forallb_rev {A} (f : A -> bool) l : forallb f l = true -> forallb f (List.rev l) = true.
+Proof.
+  intros H. apply forallb_forall. intros x Hx. apply in_rev in Hx. rewrite forallb_forall in H. apply H. exact Hx.
+Qed.
+
+(* whatever hwloc_topology_diff_apply returns, the hypotheses and the
+   total_memory invariant hold afterwards *)
+Theorem apply_preserves_invariants flags d T rc T' :
+  Inv T -> forallb entry_u64 d = true -> diff_apply flags d T = ARet rc T' -> Inv T'.
+Proof.
+  intros HI Hd H. unfold diff_apply in H.
+  destruct (negb (N.ldiff flags HWLOC_TOPOLOGY_DIFF_APPLY_REVERSE =? 0)%N); [injection H as _ <-; exact HI|].
+  set (rev := negb (N.land flags HWLOC_TOPOLOGY_DIFF_APPLY_REVERSE =? 0)%N) in *.
+  destruct (apply_loop rev d 0 T) as [T1|n T1|] eqn:El; try discriminate.
+  - injection H as _ <-. apply apply_loop_done in El. exact (seq_inv _ _ _ _ HI Hd El).
+  - destruct (apply_loop_fail _ _ _ _ _ _ El) as (p & e & r & -> & -> & Hs & _).
+    rewrite forallb_app in Hd. apply andb_true_iff in Hd. destruct Hd as [Hp Her].
+    assert (HI1 : Inv T1) by exact (seq_inv _ _ _ _ HI Hp Hs).
+    destruct (cancel_loop_fixed _ _ _ _) as [T2|] eqn:Ec; [|discriminate].
+    injection H as _ <-. unfold cancel_loop_fixed in Ec. eapply cancel_inv; [exact HI1| |exact Ec].
+    apply forallb_rev, forallb_firstn. rewrite forallb_app, Hp, Her. reflexivity.
+Qed.
+
+(* ------------------------------------------------------------------ *)
+(* the list built by diff_build addresses every attribute at most once  *)
+
+Lemma slot_eqb_true a b : slot_eqb a b = true -> a = b.
+Proof.
+  destruct a, b; cbn [slot_eqb]; try discriminate.
+  - intros H. apply key_eqb_eq in H. congruence.
+  - intros H. apply key_eqb_eq in H. congruence.
+  - intros H. apply andb_true_iff in H. destruct H as [H1 H2]. apply key_eqb_eq in H1. apply String.eqb_eq in H2. congruence.
+  - intros H. apply String.eqb_eq in H. congruence.
+Qed.
+Lemma slot_in_In s l : slot_in s l = true -> In s l.
+Proof.
+  induction l as [|x r IH]; cbn [slot_in]; [discriminate|]. intros H. apply orb_true_iff in H. destruct H as [H|H].
+  - left. apply slot_eqb_true. exact H.
+  - right. apply IH. exact H.
+Qed.
+Lemma NoDup_slot_nodup l : NoDup l -> slot_nodup l = true.
+Proof.
+  induction 1 as [|x r Hx _ IH]; [reflexivity|]. cbn [slot_nodup]. rewrite IH, andb_true_r. apply negb_true_iff.
+  destruct (slot_in x r) eqn:E; [|reflexivity]. apply slot_in_In in E. contradiction.
+Qed.
+
+Lemma nodup_app {A} (l1 l2 : list A) : NoDup l1 -> NoDup l2 -> (forall x, In x l1 -> ~ In x l2) -> NoDup (l1 ++ l2).
+Proof.
+  induction 1 as [|x r Hx _ IH]; intros H2 Hd; [exact H2|]. cbn [app]. constructor.
+  - intros Hin. apply in_app_or in Hin. destruct Hin as [Hin|Hin]; [contradiction|]. apply (Hd x); [left; reflexivity|exact Hin].
+  - apply IH; [exact H2|]. intros y Hy. apply Hd. right. exact Hy.
+Qed.
+
+Definition slot_tag (s : slot) : option key :=
+  match s with SName k => Some k | SSize k => Some k | SInfo k _ => Some k | _ => None end.
+
+Lemma nodup_concat_tagged {P} (F : P -> list slot) (kf : P -> key) ps :
+  NoDup (map kf ps) -> (forall p, In p ps -> NoDup (F p)) ->
+  (forall p s, In p ps -> In s (F p) -> slot_tag s = Some (kf p)) ->
+  NoDup (List.concat (map F ps)) /\ (forall s, In s (List.concat (map F ps)) -> exists p, In p ps /\ slot_tag s = Some (kf p)).
+Proof.
+  induction ps as [|p r IH]; intros Hn HF Ht; [split; [constructor|intros s []]|].
+  cbn [map] in Hn. inversion Hn as [|? ? Hp Hr]; subst.
+  destruct IH as [I1 I2]; [exact Hr|intros q Hq; apply HF; right; exact Hq|intros q s Hq Hs; apply (Ht q s); [right; exact Hq|exact Hs]|].
+  cbn [map List.concat]. split.
+  - apply nodup_app; [apply HF; left; reflexivity|exact I1|].
+    intros s Hs Hs2. destruct (I2 s Hs2) as (q & Hq & Tq). rewrite (Ht p s (or_introl eq_refl) Hs) in Tq.
+    injection Tq as Tq. apply Hp. rewrite Tq. apply in_map. exact Hq.
+  - intros s Hs. apply in_app_or in Hs. destruct Hs as [Hs|Hs].
+    + exists p. split; [left; reflexivity|apply Ht; [left; reflexivity|exact Hs]].
+    + destruct (I2 s Hs) as (q & Hq & Tq). exists q. split; [right; exact Hq|exact Tq].
+Qed.
+
+Lemma ipatches_names l1 : forall l2, NoDup (map fst l1) ->
+  NoDup (map (fun q => fst (fst q)) (ipatches l1 l2)) /\
+  (forall n, In n (map (fun q => fst (fst q)) (ipatches l1 l2)) -> In n (map fst l1)).
+Proof.
+  induction l1 as [|[n v] r IH]; intros [|[n2 v2] r2] Hn; try (split; [constructor|intros ? []]).
+  cbn [map fst] in Hn. inversion Hn as [|? ? Hx Hr]; subst. destruct (IH r2 Hr) as [I1 I2].
+  unfold ipatches. cbn [combine flat_map fst snd]. fold (ipatches r r2). destruct (String.eqb v v2); cbn [app map fst].
+  - split; [exact I1|]. intros m Hm. right. apply I2. exact Hm.
+  - split.
+    + constructor; [|exact I1]. intros Hin. apply Hx. apply I2. exact Hin.
+    + intros m [<-|Hm]; [left; reflexivity|right; apply I2; exact Hm].
+Qed.
+
+(* slots of the entries of one object pair *)
+Lemma node_slots nbl a b : (a_depth a =? nbl)%Z = false -> NoDup (map fst (a_infos a)) ->
+  NoDup (map (slot_of nbl) (node_diff a b)) /\
+  (forall s, In s (map (slot_of nbl) (node_diff a b)) -> slot_tag s = Some (akey a)).
+Proof.
+  intros Hd Hn. unfold node_diff. rewrite !map_app.
+  assert (N1 : forall s, In s (map (slot_of nbl) (fst (name_stage true a b))) -> s = SName (akey a)).
+  { unfold name_stage. destruct (_ && _); [intros s []|]. cbn [fst]. unfold name_diff. destruct (ostr_eqb _ _); [intros s []|].
+    intros s [<-|[]]. reflexivity. }
+  assert (N1d : NoDup (map (slot_of nbl) (fst (name_stage true a b)))).
+  { unfold name_stage. destruct (_ && _); [constructor|]. cbn [fst]. unfold name_diff. destruct (ostr_eqb _ _); [constructor|].
+    cbn. constructor; [intros []|constructor]. }
+  assert (N2 : forall s, In s (map (slot_of nbl) (fst (type_attr_diff a b))) -> s = SSize (akey a)).
+  { unfold type_attr_diff. destruct (is_numa _); [|destruct (is_memcmp_type _); intros s []].
+    destruct (_ =? _)%N; [intros s []|]. intros s [<-|[]]. reflexivity. }
+  assert (N2d : NoDup (map (slot_of nbl) (fst (type_attr_diff a b)))).
+  { unfold type_attr_diff. destruct (is_numa _); [|destruct (is_memcmp_type _); constructor].
+    destruct (_ =? _)%N; [constructor|]. cbn. constructor; [intros []|constructor]. }
+  set (inf := fst (infos_diff (a_depth a) (a_lidx a) (a_infos a) (a_infos b))).
+  assert (N3 : NoDup (map (slot_of nbl) inf) /\ forall s, In s (map (slot_of nbl) inf) -> exists n, s = SInfo (akey a) n).
+  { unfold inf, infos_diff. destruct (negb _); [split; [constructor|intros s []]|].
+    destruct (Nat.eq_dec (List.length (a_infos a)) (List.length (a_infos b))) as [El|El].
+    - (* names may differ: the emitted prefix is still a list of patches of distinct names *)
+      assert (G : forall l1 l2, NoDup (map fst l1) ->
+        NoDup (map (slot_of nbl) (fst (infos_walk (a_depth a) (a_lidx a) l1 l2))) /\
+        forall s, In s (map (slot_of nbl) (fst (infos_walk (a_depth a) (a_lidx a) l1 l2))) ->
+          exists n, s = SInfo (akey a) n /\ In n (map fst l1)).
+      { induction l1 as [|[n1 v1] r1 IH]; intros [|[n2 v2] r2] Hnd; try (split; [constructor|intros s []]).
+        cbn [infos_walk]. destruct (negb (String.eqb n1 n2)); [split; [constructor|intros s []]|].
+        cbn [map fst] in Hnd. inversion Hnd as [|? ? Hx Hr]; subst. destruct (IH r2 Hr) as [I1 I2].
+        destruct (infos_walk (a_depth a) (a_lidx a) r1 r2) as [e tc]. cbn [fst] in *.
+        destruct (String.eqb v1 v2); cbn [app map].
+        - split; [exact I1|]. intros s Hs. destruct (I2 s Hs) as (n & -> & Hin). exists n. split; [reflexivity|right; exact Hin].
+        - cbn [slot_of]. rewrite Hd. split.
+          + constructor; [|exact I1]. intros Hin. destruct (I2 _ Hin) as (n & E & Hin'). injection E as <-. contradiction.
+          + intros s [<-|Hs]; [exists n1; split; [reflexivity|left; reflexivity]|].
+            destruct (I2 s Hs) as (n & -> & Hin). exists n. split; [reflexivity|right; exact Hin]. }
+      destruct (G (a_infos a) (a_infos b) Hn) as [G1 G2]. split; [exact G1|].
+      intros s Hs. destruct (G2 s Hs) as (n & -> & _). eauto.
+    - split; [|intros s Hs]; revert El; intros El.
+      + assert (G : forall l1 l2, NoDup (map fst l1) ->
+          NoDup (map (slot_of nbl) (fst (infos_walk (a_depth a) (a_lidx a) l1 l2))) /\
+          forall s, In s (map (slot_of nbl) (fst (infos_walk (a_depth a) (a_lidx a) l1 l2))) ->
+            exists n, s = SInfo (akey a) n /\ In n (map fst l1)).
+        { induction l1 as [|[n1 v1] r1 IH]; intros [|[n2 v2] r2] Hnd; try (split; [constructor|intros s []]).
+          cbn [infos_walk]. destruct (negb (String.eqb n1 n2)); [split; [constructor|intros s []]|].
+          cbn [map fst] in Hnd. inversion Hnd as [|? ? Hx Hr]; subst. destruct (IH r2 Hr) as [I1 I2].
+          destruct (infos_walk (a_depth a) (a_lidx a) r1 r2) as [e tc]. cbn [fst] in *.
+          destruct (String.eqb v1 v2); cbn [app map].
+          - split; [exact I1|]. intros s Hs. destruct (I2 s Hs) as (n & -> & Hin). exists n. split; [reflexivity|right; exact Hin].
+          - cbn [slot_of]. rewrite Hd. split.
+            + constructor; [|exact I1]. intros Hin. destruct (I2 _ Hin) as (n & E & Hin'). injection E as <-. contradiction.
+            + intros s [<-|Hs]; [exists n1; split; [reflexivity|left; reflexivity]|].
+              destruct (I2 s Hs) as (n & -> & Hin). exists n. split; [reflexivity|right; exact Hin]. }
+        exact (proj1 (G (a_infos a) (a_infos b) Hn)).
+      + assert (G : forall l1 l2, forall s, In s (map (slot_of nbl) (fst (infos_walk (a_depth a) (a_lidx a) l1 l2))) ->
+            exists n, s = SInfo (akey a) n).
+        { induction l1 as [|[n1 v1] r1 IH]; intros [|[n2 v2] r2] s0 Hs0; try contradiction.
+          cbn [infos_walk] in Hs0. destruct (negb (String.eqb n1 n2)); [contradiction|].
+          specialize (IH r2). destruct (infos_walk (a_depth a) (a_lidx a) r1 r2) as [e tc]. cbn [fst] in *.
+          destruct (String.eqb v1 v2); cbn [app map] in Hs0; [apply IH; exact Hs0|].
+          destruct Hs0 as [<-|Hs0]; [cbn [slot_of]; rewrite Hd; eauto|apply IH; exact Hs0]. }
+        exact (G _ _ s Hs). }
+  destruct N3 as [N3d N3].
+  split.
+  - apply nodup_app; [exact N1d|apply nodup_app; [exact N2d|exact N3d|]|].
+    + intros s Hs Hs3. rewrite (N2 s Hs) in Hs3. destruct (N3 _ Hs3) as [n E]. discriminate E.
+    + intros s Hs Hs23. rewrite (N1 s Hs) in Hs23. apply in_app_or in Hs23. destruct Hs23 as [H|H].
+      * apply N2 in H. discriminate H.
+      * destruct (N3 _ H) as [n E]. discriminate E.
+  - intros s Hs. apply in_app_or in Hs. destruct Hs as [H|H]; [rewrite (N1 s H); reflexivity|].
+    apply in_app_or in H. destruct H as [H|H]; [rewrite (N2 s H); reflexivity|].
+    destruct (N3 s H) as [n ->]. reflexivity.
+Qed.
+
+Lemma build_decompose A B d : diff_build 0 A B = BRet 0 d ->
+  skel (t_root A) = skel (t_root B) /\ map fst (t_infos A) = map fst (t_infos B) /\
+  d = List.concat (map nd (combine (oattrs (t_root A)) (oattrs (t_root B)))) ++
+      map (pentry (t_nbl A) 0) (ipatches (t_infos A) (t_infos B)).
+Proof.
+  intros Hb. unfold diff_build, diff_build_gen in Hb. cbn [N.eqb negb] in Hb. change (diff_trees_gen true) with diff_trees in Hb.
+  destruct (has_tc (diff_trees (t_root A) (t_root B))) eqn:Edt; [discriminate Hb|]. destruct (_ || _); [discriminate Hb|].
+  pose proof (infos_diff_tc (t_nbl A) 0 (t_infos A) (t_infos B)) as Hti.
+  destruct (infos_diff (t_nbl A) 0 (t_infos A) (t_infos B)) as [ti [|]] eqn:Eti; [discriminate Hb|].
+  destruct (dists_differ _ _); [discriminate Hb|]. destruct (memattrs_cmp _ _ _) as [[|]|]; try discriminate Hb.
+  destruct (negb _); [discriminate Hb|]. injection Hb as <-.
+  cbn [snd] in Hti. pose proof (proj1 Hti eq_refl) as Hn. split; [apply diff_trees_tc_iff; exact Edt|]. split; [exact Hn|].
+  rewrite (diff_trees_flat _ _ Edt). f_equal. rewrite <- (infos_diff_patches _ _ _ _ Hn), Eti. reflexivity.
+Qed.
+
+Lemma depth_addressable_nbl nbl : (0 <= nbl)%Z -> depth_addressable nbl nbl = false.
+Proof.
+  intros H0. unfold depth_addressable. rewrite Z.ltb_irrefl, andb_false_r. cbn [orb].
+  replace (0 <=? HWLOC_TYPE_DEPTH_NUMANODE - nbl)%Z with false; [reflexivity|].
+  symmetry. apply Z.leb_gt. unfold HWLOC_TYPE_DEPTH_NUMANODE. lia.
+Qed.
+
+Lemma nodup_map_inj {A B} (f : A -> B) l : (forall x y, f x = f y -> x = y) -> NoDup l -> NoDup (map f l).
+Proof.
+  intros Hf. induction 1 as [|x r Hx _ IH]; [constructor|]. cbn [map]. constructor; [|exact IH].
+  intros Hin. apply in_map_iff in Hin. destruct Hin as (y & E & Hy). apply Hf in E. subst. contradiction.
+Qed.
+
+Theorem build_slots_distinct A B d :
+  Hkeys A -> Hnames A -> Hdepths A -> (0 <= t_nbl A)%Z ->
+  diff_build 0 A B = BRet 0 d -> slots_distinct (t_nbl A) d = true.
+Proof.
+  intros HK HN HD H0 Hb. destruct (build_decompose _ _ _ Hb) as (Hsk & Hnt & ->).
+  set (ps := combine (oattrs (t_root A)) (oattrs (t_root B))).
+  unfold slots_distinct. apply NoDup_slot_nodup. rewrite map_app, concat_map, map_map.
+  assert (Hmap : map skel_attr (oattrs (t_root A)) = map skel_attr (oattrs (t_root B))).
+  { rewrite <- !oattrs_tmap_any. unfold skel in Hsk. rewrite Hsk. reflexivity. }
+  destruct (map_eq_combine skel_attr _ _ Hmap) as [_ Hfst]. fold ps in Hfst.
+  assert (Hin_l : forall p, In p ps -> In (fst p) (attrs A)).
+  { intros p Hp. rewrite attrs_oattrs, <- Hfst. apply in_map. exact Hp. }
+  assert (Hnode : forall p, In p ps -> NoDup (map (slot_of (t_nbl A)) (nd p)) /\
+            forall s, In s (map (slot_of (t_nbl A)) (nd p)) -> slot_tag s = Some (akey (fst p))).
+  { intros p Hp. apply node_slots.
+    - destruct (a_depth (fst p) =? t_nbl A)%Z eqn:E; [|reflexivity]. apply Z.eqb_eq in E.
+      pose proof (HD _ (Hin_l p Hp)) as Hda. rewrite E, depth_addressable_nbl in Hda by exact H0. discriminate.
+    - apply str_nodup_NoDup. apply (proj1 HN). apply Hin_l. exact Hp. }
+  destruct (nodup_concat_tagged (fun p => map (slot_of (t_nbl A)) (nd p)) (fun p => akey (fst p)) ps) as [C1 C2].
+  { replace (map (fun p => akey (fst p)) ps) with (map akey (map fst ps)) by (rewrite map_map; reflexivity). rewrite Hfst. exact HK. }
+  { intros p Hp. apply Hnode. exact Hp. }
+  { intros p s Hp Hs. apply (proj2 (Hnode p Hp)). exact Hs. }
+  destruct (ipatches_names (t_infos A) (t_infos B)) as [I1 _]; [apply str_nodup_NoDup; exact (proj2 HN)|].
+  assert (Hti : map (slot_of (t_nbl A)) (map (pentry (t_nbl A) 0) (ipatches (t_infos A) (t_infos B))) =
+                map STInfo (map (fun q => fst (fst q)) (ipatches (t_infos A) (t_infos B)))).
+  { rewrite !map_map. apply map_ext. intros q. cbn [pentry slot_of]. rewrite Z.eqb_refl. reflexivity. }
+  rewrite Hti. apply nodup_app; [exact C1| |].
+  - apply nodup_map_inj; [intros x y E; injection E; auto|exact I1].
+  - intros s Hs Hs2. destruct (C2 s Hs) as (p & _ & Tp). apply in_map_iff in Hs2. destruct Hs2 as (n & <- & _). discriminate Tp.
+Qed.
+
+Lemma build_entries_u64 A B d :
+  Hu64 A -> (forall b, In b (oattrs (t_root B)) -> a_lmem b < U64) ->
+  diff_build 0 A B = BRet 0 d -> forallb entry_u64 d = true.
+Proof.
+  intros HA HB Hb. destruct (build_decompose _ _ _ Hb) as (_ & _ & ->).
+  rewrite forallb_app. apply andb_true_iff. split.
+  - apply forallb_forall. intros e He. apply in_concat in He. destruct He as (l & Hl & He).
+    apply in_map_iff in Hl. destruct Hl as ([pa pb] & <- & Hp).
+    pose proof (in_combine_l _ _ _ _ Hp) as Ha. pose proof (in_combine_r _ _ _ _ Hp) as Hbb.
+    set (p := (pa, pb)) in *.
+    unfold nd, node_diff in He. apply in_app_or in He. destruct He as [He|He].
+    + unfold name_stage in He. destruct (_ && _); [contradiction|]. cbn [fst] in He. unfold name_diff in He.
+      destruct (ostr_eqb _ _); [contradiction|]. destruct He as [<-|[]]. reflexivity.
+    + apply in_app_or in He. destruct He as [He|He].
+      * unfold type_attr_diff in He. destruct (is_numa _); [|destruct (is_memcmp_type _); contradiction].
+        destruct (_ =? _)%N; [contradiction|]. destruct He as [<-|[]]. cbn [entry_u64].
+        apply andb_true_iff. split; apply N.ltb_lt; [apply (HA pa); exact Ha|apply HB; exact Hbb].
+      * unfold infos_diff in He. destruct (negb _); [contradiction|].
+        assert (G : forall l1 l2 e0, In e0 (fst (infos_walk (a_depth (fst p)) (a_lidx (fst p)) l1 l2)) -> entry_u64 e0 = true).
+        { induction l1 as [|[n1 v1] r1 IH]; intros [|[n2 v2] r2] e0 H0; try contradiction.
+          cbn [infos_walk] in H0. destruct (negb (String.eqb n1 n2)); [contradiction|]. specialize (IH r2).
+          destruct (infos_walk _ _ r1 r2) as [e' tc]. cbn [fst] in *. apply in_app_or in H0. destruct H0 as [H0|H0]; [|apply IH; exact H0].
+          destruct (String.eqb v1 v2); [contradiction|]. destruct H0 as [<-|[]]. reflexivity. }
+        exact (G _ _ _ He).
+  - apply forallb_forall. intros e He. apply in_map_iff in He. destruct He as (q & <- & _). reflexivity.
+Qed.
+
+(* build, apply, apply in reverse: back to A *)
+Theorem build_apply_reverse A B d :
+  Hkeys A -> Hnames A -> Hdepths A -> Hu64 A -> (0 <= t_nbl A)%Z ->
+  (forall b, In b (oattrs (t_root B)) -> a_lmem b < U64) ->
+  diff_build 0 A B = BRet 0 d ->
+  exists A', diff_apply 0 d A = ARet 0 A' /\ diff_build 0 A' B = BRet 0 [] /\
+             diff_apply HWLOC_TOPOLOGY_DIFF_APPLY_REVERSE d A' = ARet 0 A.
+Proof.
+  intros HK HN HD HU H0 HB Hb.
+  destruct (apply_build_then_build A B d HK HN HD H0 Hb) as (A' & Ha & Hr & _).
+  exists A'. split; [exact Ha|]. split; [exact Hr|].
+  apply (proj1 (reverse_restores_distinct d A A' HK HN HU H0 (build_entries_u64 _ _ _ HU HB Hb)
+                  (build_slots_distinct _ _ _ HK HN HD H0 Hb))). exact Ha.
+Qed.
